@@ -44,6 +44,10 @@ CHECKS = {
              text="For every scenario with depfile / deps=gcc / deps=msvc dependencies (sources or generated, with or without a manifest path) and every change set and schedule, the run must start the same commands, end the same way and leave the same contents as the declared twin; ordering of generated headers is checked by the C04 monitor on the same traces. KF-DEPS-SKIPPED is reported by signature."),
  "C11": dict(cat="model_checking", ref="6.C11", tech="metamorphic twin scenarios (dyndep file vs its information inlined in the manifest) over dyndep graph shapes from Families.tla, all completion orders on the real engine, TLC trace validation of the twin monitor",
              text="Dyndep files that exist or are produced during the build (clean or dirty producer, shared, two levels, extra order-only inputs, discovered inputs/outputs/restat): same commands, result and final contents as the inlined twin for every history and schedule.  (Invalid dyndep files: see the evidence field 'invalid_variants'.)"),
+ "C17": dict(cat="model_checking", ref="6.C17", tech="graphs with back edges through every input kind, multi-output statements, recorded dependencies and dyndep files generated from Families.tla; real scan/build executions validated by TLC against the graph-theoretic cycle definition of NinjaRef.tla (CycleStmts / AcyclicN)",
+             text="Soundness and completeness of cycle diagnosis over generated graphs: a cycle in the needed closure => non-zero exit, 'dependency cycle' message whose hops are real inputs, first = last, no command of the cycle run; no cycle => never the cycle message (validation back references included)."),
+ "C19": dict(cat="model_checking", ref="6.C19", tech="histories with dry-run invocations (after changes, failures and crashes) from Families.tla on the real engine; TLC trace validation: no command started, sources/outputs/depfiles and the loaded meaning of both logs unchanged, listed commands = NinjaRef!ExpectedRun",
+             text="Dry-run part of C19 on the in-process harness: tree and log meaning before/after, prediction equals the reference (superset with restat).  The read-only tools of the real binary are checked by the H2 part when present (evidence field 'tools')."),
 }
 
 NOT_YET = "check not built yet (work in progress; see DESIGN.md section 9)"
